@@ -162,8 +162,35 @@ Proof. intros I H. simpl in H. destr H; injection H as <- <-; seth I h. Qed.
 Lemma step_subctx s h s' evs : SInv s -> step s (LSubCtx h) = Some (s', evs) -> SInv s'.
 Proof. intros I H. simpl in H. destr H. injection H as <- <-. bools. seth I h. Qed.
 
+(** subscriber.Close(): the subscriptions of all handlers that share the Subscriber object end *)
+Lemma sinv_close_sub s h : SInv s -> SInv (close_sub s h).
+Proof.
+  intros I. pose proof I as I0. dI I. constructor; unfold lockpc, close_sub in *; simpl; try assumption.
+  - intros h' Hh'. rewrite (J4 h' Hh'). destruct (Nat.eqb (h_sub h0) (h_sub (hs s h))); reflexivity.
+  - intros h'. destruct (Nat.eqb (h_sub (hs s h')) (h_sub (hs s h))); auto.
+    destruct (J5 h'). constructor; simpl; auto; intros; discriminate.
+  - intros h' Hh'. destruct (Nat.eqb (h_sub (hs s h')) (h_sub (hs s h))); simpl; auto.
+  - intros h'. destruct (Nat.eqb (h_sub (hs s h')) (h_sub (hs s h))); simpl; auto.
+  - intros h' X. apply J8 in X. destruct (Nat.eqb (h_sub (hs s h')) (h_sub (hs s h))); simpl; auto.
+  - intros h' X. apply J9 in X. destruct (Nat.eqb (h_sub (hs s h')) (h_sub (hs s h))); simpl; auto.
+  - intros h'. destruct (Nat.eqb (h_sub (hs s h')) (h_sub (hs s h))); simpl; auto.
+  - intros X h' Hh'. destruct (Nat.eqb (h_sub (hs s h')) (h_sub (hs s h))); simpl; auto.
+  - intros t h' a X. destruct (J18 t h' a X) as [A B]. split; auto.
+    destruct (Nat.eqb (h_sub (hs s h')) (h_sub (hs s h))); simpl; auto.
+  - intros t h' a X. pose proof (J19 t h' a X). destruct (Nat.eqb (h_sub (hs s h')) (h_sub (hs s h))); simpl; auto.
+  - rewrite J21. apply cnt_ext. intros h' Hh'. destruct (Nat.eqb (h_sub (hs s h')) (h_sub (hs s h))); reflexivity.
+Qed.
+
 Lemma step_hc s h b s' evs : SInv s -> step s (LHC h b) = Some (s', evs) -> SInv s'.
-Proof. intros I H. simpl in H. destr H; injection H as <- <-; seth I h. Qed.
+Proof.
+  intros I H. unfold step in H. destruct (h_hc (hs s h)) eqn:E; try discriminate H.
+  pose proof (sinv_close_sub s h I) as I'.
+  assert (E' : h_hc (hs (close_sub s h) h) = CSelect).
+  { unfold close_sub; simpl. rewrite Nat.eqb_refl. exact E. }
+  destruct b.
+  - destruct (closingCh s); [|discriminate]. injection H as <- <-. seth I' h.
+  - destruct (hctx_done s h); [|discriminate]. destruct (closingCh s); injection H as <- <-; [seth I' h|seth I h].
+Qed.
 
 Lemma step_obs s l s' evs : SInv s ->
   (l = LObsRunning \/ (exists h, l = LObsStarted h \/ l = LObsStopped h \/ l = LStoppedGet h)) ->
